@@ -406,7 +406,13 @@ func (p *Process) internalStop() error {
 }
 
 func (p *Process) stopProcess(cancelReadinessFuncs bool) error {
-	p.runCancelFn()
+	// Only a stop request from outside ends the life of this process object. The internal
+	// stop after a failed readiness probe must leave the run context alone: the restart
+	// policy decides what happens next (with the context cancelled the process was never
+	// restarted, whatever the policy).
+	if cancelReadinessFuncs {
+		p.runCancelFn()
+	}
 	verifYieldP(p, "stop.afterCancel")
 	if !p.isRunning() {
 		log.Debug().Msgf("process %s is in state %s not shutting down", p.getName(), p.getStatusName())
